@@ -15,9 +15,13 @@ import random
 import tempfile
 
 from . import e3
+from . import c02_profile as pf
 
 
-def gen_overlap(seed) -> tuple[e3.Project, dict]:
+def gen_overlap(seed, fine: bool = False) -> tuple[e3.Project, dict]:
+    """`fine`: an explicit gate between consecutive requests of every sub-plan, so that the schedule
+    interleaves the sub-plans REQUEST BY REQUEST (without it a simulated command issues its requests en
+    bloc and schedules only permute whole blocks)."""
     rng = random.Random(f"c02-overlap-{seed}")
     nsub = rng.randint(2, 3)
     nsrc = rng.randint(2, 4)
@@ -95,6 +99,14 @@ def gen_overlap(seed) -> tuple[e3.Project, dict]:
     # program, not of the schedule)
     for sp in subs:
         rng.shuffle(scripts[sp])
+    if fine:
+        for sp in subs:
+            acts, spaced = scripts[sp], []
+            for k, a in enumerate(acts):
+                if k:
+                    spaced.append({"op": "gate", "name": f"{sp}:{k}"})
+                spaced.append(a)
+            scripts[sp] = spaced
     project = e3.Project(sources=sources, program={"scripts": scripts, "commands": commands})
     meta["nsteps"] = nstep
     meta["nsub"] = nsub
@@ -138,8 +150,9 @@ def describe(kw: dict) -> str:
             f":gates={'+'.join(sch.get('points', [])) or '-'}")
 
 
-def _summary(r: e3.BuildResult) -> dict:
+def _summary(r: e3.BuildResult, program: dict | None = None) -> dict:
     return {"rc": r.returncode, "cls": e3.rc_class(r.returncode),
+            "profile": pf.profile(r, program) if program is not None else {},
             "graph": e3.canon_graph(r.graph, digests=False) if r.graph else None,
             "graph_d": e3.canon_graph(r.graph, digests=True) if r.graph else None,
             "rejected": sorted([list(x) for x in r.rejected]),
@@ -156,7 +169,7 @@ def run_schedules(project: e3.Project, schedules=SCHEDULES, resumed=True, seed_s
         with tempfile.TemporaryDirectory(prefix="c02-") as tmp:
             project.materialise(tmp)
             r = e3.build(tmp, project.program, env=project.env, timeout=timeout, **kw)
-            out[name] = _summary(r)
+            out[name] = _summary(r, project.program)
             if name == "j1" and resumed:
                 r2 = e3.build(tmp, project.program, env=project.env, timeout=timeout, njob=1,
                               resources="tok:2")
@@ -213,8 +226,10 @@ def run_case(item):
         return run_timing_case(item)
     if kind == "rerun":
         return run_rerun_case(item)
-    if kind == "overlap":
-        project, meta = gen_overlap(seed)
+    if kind == "deferplan":
+        return run_deferplan_case(item)
+    if kind in ("overlap", "overlapfine"):
+        project, meta = gen_overlap(seed, fine=(kind == "overlapfine"))
     else:
         from . import e3_gen
         project, _history = e3_gen.gen_case(seed, max_phases=1)
@@ -233,6 +248,7 @@ def run_case(item):
             "max_running": max(r["max_running"] or 0 for r in res.values()),
             "settings": [describe(kw) for _, kw in scheds],
             "running_by_schedule": {n: res[n]["max_running"] for n, _ in scheds},
+            "profile": pf.merge(r.get("profile") for n, r in res.items() if n not in ("j1", "resumed")),
             "project": project.to_json() if diffs else None}
 
 
@@ -425,6 +441,7 @@ def run_timing_case(item):
     diffs = compare(res, texts=False)
     return {"item": item, "meta": {}, "cls": res["j1"]["cls"], "nrej": 0, "diffs": diffs,
             "max_running": max(r["max_running"] or 0 for r in res.values()),
+            "profile": pf.merge(r.get("profile") for n, r in res.items() if n != "j1"),
             "project": project.to_json() if diffs else None}
 
 
@@ -536,6 +553,12 @@ def rerun_schedules(meta: dict, seed) -> list:
             + [f"end:{s}" for s in subs]))),
         ("j4-subs-first", dict(njob=4, schedule=dict(
             both, order=[f"start:{s}" for s in subs] + [f"end:{s}" for s in subs]))),
+        # a worker that is a product of a re-executed sub-plan starts before its creator, and FINISHES
+        # while the creator is running again (its node is detached from the creator's reset_for_rerun
+        # until the creator has defined it again)
+        ("j4-workers-end-inside", dict(njob=4, schedule=dict(
+            both, order=[f"start:{w}" for w in workers] + [f"start:{s}" for s in subs]
+            + [f"end:{w}" for w in workers] + [f"end:{s}" for s in subs]))),
         ("j4-seed-a", dict(njob=4, schedule={"seed": 101 + seed % 997, "points": ["start", "end"]})),
         # (no lifo here: a worker that was refused a detached input is PENDING, not deferred, and is
         # dispatched again at once; releasing the newest gate first starves the sub-plan until the
@@ -553,7 +576,7 @@ def run_rerun_case(item):
         for name, kw in rerun_schedules(meta, seed):
             rs = e3.run_history(project, [{"edits": edits, "build": kw}], njob=1, timeout=60)
             first = e3.rc_class(rs[0].returncode)
-            res[name] = _summary(rs[-1])
+            res[name] = _summary(rs[-1], project.program)
             res[name]["executed"] = [c["label"] for c in rs[-1].commands]
     except Exception as e:  # noqa: BLE001 - reported by the caller
         return {"item": item, "meta": meta, "crash": f"{type(e).__name__}: {e}", "project": project.to_json()}
@@ -567,7 +590,171 @@ def run_rerun_case(item):
                                                              for r in res.values())},
             "cls": res["j1"]["cls"], "nrej": len(res["j1"]["rejected"]), "diffs": diffs,
             "max_running": max(r["max_running"] or 0 for r in res.values()),
+            "profile": pf.merge(r.get("profile") for n, r in res.items() if n != "j1"),
             "project": dict(project.to_json(), edits=edits) if diffs else None}
+
+
+# ---------------------------------------------------------------------------------------------
+# a step that FINISHES (and issues requests) while its creator is running AGAIN within one build:
+# the sub-plan ./sub.py defines workers, then amends an input that is not built yet and is deferred;
+# the workers are dispatched (their creator is RUNNING or, later, PENDING-deferred ... the scheduler
+# only dispatches them while the creator chain is safe, so they start during the creator's first run);
+# the producer finishes, ./sub.py is dispatched again (reset_for_rerun detaches the workers that are
+# still RUNNING), re-defines them (recycle), defines the steps behind the amend.  The workers' own
+# requests and completions are placed before the restart, between the restart and the re-definition,
+# after the re-definition and after the creator's second completion.
+# ---------------------------------------------------------------------------------------------
+
+def gen_deferplan(seed) -> tuple[e3.Project, dict]:
+    rng = random.Random(f"c02-deferplan-{seed}")
+    nw = rng.randint(1, 2)
+    sources = {f"s{i}.txt": f"source {i} {seed}\n" for i in range(2)}
+    scripts = {"plan.py": [], "sub.py": []}
+    commands = {"q": [{"op": "write", "path": "f.txt", "content": f"produced {seed}\n"}]}
+    workers = [f"a{i}.py" for i in range(nw)]
+    sub = scripts["sub.py"]
+    sub.append({"op": "gate", "name": "sub:top"})
+    meta = {"workers": [f"./{w}" for w in workers], "requests": [], "late": []}
+    twice = nw == 2 and rng.random() < 0.25      # both workers declare the same source static
+    for i, w in enumerate(workers):
+        if i:
+            sub.append({"op": "gate", "name": "sub:between"})
+        sub.append({"op": "run", "label": f"./{w}", "out": [f"a{i}.txt"]})
+        kind = "static" if twice else rng.choice(["none", "amend-src", "amend-out", "static", "define", "amend-f"])
+        body = [{"op": "gate", "name": f"a{i}:req"}]
+        if kind == "amend-src":
+            body.append({"op": "amend", "inp": ["s0.txt"]})
+            body.append({"op": "read", "paths": ["s0.txt"]})
+        elif kind == "amend-out":
+            body.append({"op": "amend", "out": [f"x{i}.txt"]})
+            body.append({"op": "write", "path": f"x{i}.txt"})
+        elif kind == "static":
+            body.append({"op": "static", "paths": ["s1.txt"]})
+        elif kind == "define":
+            body.append({"op": "run", "label": f"d{i}", "shell": True, "inp": ["s0.txt"], "out": [f"d{i}.txt"]})
+            commands[f"d{i}"] = [{"op": "auto"}]
+        elif kind == "amend-f":
+            body.append({"op": "amend", "inp": ["f.txt"]})
+            body.append({"op": "read", "paths": ["f.txt"]})
+        body.append({"op": "write", "path": f"a{i}.txt"})
+        scripts[w] = body
+        meta["requests"].append(kind)
+    sub.append({"op": "gate", "name": "sub:mid"})
+    sub.append({"op": "amend", "inp": ["f.txt"]})
+    sub.append({"op": "read", "paths": ["f.txt"]})
+    # behind the amend: only reached by the second execution of ./sub.py
+    late = rng.choice(["none", "consumer", "static-s1", "worker"])
+    if late == "consumer":
+        sub.append({"op": "run", "label": "z", "shell": True, "inp": [f"a{i}.txt" for i in range(nw)], "out": ["z.txt"]})
+        commands["z"] = [{"op": "auto"}]
+    elif late == "static-s1":
+        # collides with a worker that declares s1.txt static, in -j1 as in every other schedule
+        sub.append({"op": "static", "paths": ["s1.txt"]})
+    elif late == "worker":
+        scripts["b.py"] = [{"op": "gate", "name": "b:req"}, {"op": "static", "paths": ["s1.txt"]},
+                           {"op": "write", "path": "b.txt"}]
+        sub.append({"op": "run", "label": "./b.py", "out": ["b.txt"]})
+    meta["late"] = late
+    plan = scripts["plan.py"]
+    plan.append({"op": "static", "paths": sorted(["sub.py", "s0.txt"] + workers + (["b.py"] if late == "worker" else []))})
+    plan.append({"op": "plan", "label": "./sub.py"})
+    plan.append({"op": "run", "label": "q", "shell": True, "out": ["f.txt"]})
+    if not any(k == "static" for k in meta["requests"]) and late not in ("static-s1", "worker"):
+        plan.append({"op": "static", "paths": ["s1.txt"]})
+    return e3.Project(sources=sources, program={"scripts": scripts, "commands": commands}), meta
+
+
+def deferplan_schedules(meta: dict, seed) -> list:
+    ws = meta["workers"]
+    reqs = [f"a{i}:req" for i in range(len(ws))]
+    first = ["start:./plan.py", "end:./plan.py", "start:./sub.py", "sub:top", "sub:between", "sub:mid", "end:./sub.py"]
+    again = ["start:./sub.py", "sub:top", "sub:between", "sub:mid", "end:./sub.py"]
+    startw = [f"start:{w}" for w in ws]
+    endw = [f"end:{w}" for w in ws]
+    prod = ["start:q", "end:q"]
+    both = dict(policy="fifo", points=["start", "end"])
+    return [
+        ("j1", dict(njob=1)),
+        # the workers are done before the creator starts again
+        ("j4-before-restart", dict(njob=4, schedule=dict(both, order=first + startw + reqs + endw + prod
+                                                         + again))),
+        # requests and completions arrive while the creator runs again and has NOT yet defined them again
+        ("j4-detached", dict(njob=4, schedule=dict(both, order=first + startw + prod + ["start:./sub.py"] + reqs + endw
+                                                   + again[1:]))),
+        # requests while detached, completion after the re-definition
+        ("j4-req-detached-end-after", dict(njob=4, schedule=dict(both, order=first + startw + prod + ["start:./sub.py"]
+                                                                 + reqs + ["sub:top", "sub:between"] + endw
+                                                                 + ["sub:mid", "end:./sub.py"]))),
+        # requests after the re-definition, completion after the creator's second completion
+        ("j4-after-redefine", dict(njob=4, schedule=dict(both, order=first + startw + prod
+                                                         + ["start:./sub.py", "sub:top", "sub:between"] + reqs
+                                                         + ["sub:mid", "end:./sub.py"] + endw))),
+        # the first worker has been defined again (attached), the second one is still detached: the
+        # detached one's request first, then the attached one's -- and the other way round
+        ("j4-mixed-detached-first", dict(njob=4, schedule=dict(both, order=first + startw + prod
+                                                               + ["start:./sub.py", "sub:top"] + reqs[::-1] + endw
+                                                               + again[2:]))),
+        ("j4-mixed-attached-first", dict(njob=4, schedule=dict(both, order=first + startw + prod
+                                                               + ["start:./sub.py", "sub:top"] + reqs + endw
+                                                               + again[2:]))),
+        ("j4-seed", dict(njob=4, schedule={"seed": 303 + seed % 977, "points": ["start", "end"]})),
+    ]
+
+
+def run_deferplan_case(item):
+    kind, seed, _ = item
+    project, meta = gen_deferplan(seed)
+    try:
+        res = run_schedules(project, schedules=deferplan_schedules(meta, seed), resumed=False)
+    except Exception as e:  # noqa: BLE001 - reported by the caller
+        return {"item": item, "meta": meta, "crash": f"{type(e).__name__}: {e}", "project": project.to_json()}
+    diffs = compare(res, texts=False)
+    return {"item": item, "meta": meta, "cls": res["j1"]["cls"], "nrej": len(res["j1"]["rejected"]), "diffs": diffs,
+            "max_running": max(r["max_running"] or 0 for r in res.values()),
+            "profile": pf.merge(r.get("profile") for n, r in res.items() if n != "j1"),
+            "profiles": {n: r.get("profile") or {} for n, r in res.items()},
+            "by_schedule": {n: [r["cls"], [x[3][:80] for x in r["rejected"]], [x[0] for x in r["rejected"]]]
+                            for n, r in res.items()},
+            "project": project.to_json() if diffs else None}
+
+
+def run_detached_issuer_scenario() -> dict:
+    """Directed, from scratch, ONE build (finding C02:noncommute:detached-issuer).  ./sub.py defines the
+    workers ./a0.py and ./a1.py and is deferred by amend(inp=f.txt); both workers declare the source
+    s1.txt static.  -j1: the workers run one after the other, the second declaration is refused, the
+    build FAILS.  -j4 with the workers' requests arriving after ./sub.py was dispatched again (its
+    reset_for_rerun detached the RUNNING workers) and before it defined them again: both declarations
+    are accepted (the second takes the file over from a detached owner) and the build SUCCEEDS."""
+    plan = [{"op": "static", "paths": ["a0.py", "a1.py", "s0.txt", "sub.py"]}, {"op": "plan", "label": "./sub.py"},
+            {"op": "run", "label": "q", "shell": True, "out": ["f.txt"]}]
+    sub = [{"op": "gate", "name": "sub:top"}, {"op": "run", "label": "./a0.py", "out": ["a0.txt"]},
+           {"op": "run", "label": "./a1.py", "out": ["a1.txt"]}, {"op": "amend", "inp": ["f.txt"]},
+           {"op": "read", "paths": ["f.txt"]}]
+    worker = lambda i: [{"op": "gate", "name": f"a{i}:req"}, {"op": "static", "paths": ["s1.txt"]},  # noqa: E731
+                        {"op": "write", "path": f"a{i}.txt"}]
+    p = e3.Project(sources={"s0.txt": "0\n", "s1.txt": "1\n"}, program={
+        "scripts": {"plan.py": plan, "sub.py": sub, "a0.py": worker(0), "a1.py": worker(1)},
+        "commands": {"q": [{"op": "write", "path": "f.txt", "content": "F\n"}]}})
+    first = ["start:./plan.py", "end:./plan.py", "start:./sub.py", "sub:top", "end:./sub.py",
+             "start:./a0.py", "start:./a1.py", "start:q", "end:q"]
+    both = dict(policy="fifo", points=["start", "end"])
+    out = {"project": p.to_json()}
+    for name, kw in (("j1", dict(njob=1)),
+                     # control: the requests arrive before the creator is dispatched again
+                     ("j4-attached", dict(njob=4, schedule=dict(both, order=first[:7] + ["a0:req", "a1:req", "end:./a0.py",
+                                                                                          "end:./a1.py"] + first[7:]))),
+                     ("j4-detached", dict(njob=4, schedule=dict(both, order=first + ["start:./sub.py", "a0:req", "a1:req",
+                                                                                     "end:./a0.py", "end:./a1.py", "sub:top",
+                                                                                     "end:./sub.py"])))):
+        r = e3.from_scratch(p, **kw)
+        prof = pf.profile(r, p.program)
+        out[name] = {"cls": e3.rc_class(r.returncode), "rejected": [list(x) for x in r.rejected],
+                     "requests_while_detached": prof.get("creator-reruns:request-while-detached", 0),
+                     "accepted_while_detached": sorted(
+                         c["label"] for c in r.commands for n, ok, s in c["rpc"]
+                         if ok and n == "declare_static" and prof.get("detached-request:" + c["label"])),
+                     "gate_releases": [t[0] for t in r.schedule_trace]}
+    return out
 
 
 def run_busy_defer_scenario(cap: int = 3) -> dict:
